@@ -328,14 +328,23 @@ def parseFragmentPrefix (data : Bytes) : M (Bytes × Bool × Bool) := do
 
 /-- receiveFragment: new context, or an error -/
 def receiveFragment (before : FragCtx) (data : Bytes) : M FragCtx := do
+  let c0 ← getc
+  -- repaired code: a fragment that is rejected or discarded neither commits the conversation to its
+  -- protocol version nor binds it to the instance it names
+  let unbind : M Unit := modc fun c =>
+    { c with version := if c0.version.isNone then none else c.version, theirTag := c0.theirTag }
   let (body, ignore, ok1) ← parseFragmentPrefix data
   let parsed := parseFragment body
   if ignore then do
     msgEvent evOtherInstance
     return before
   match ok1, parsed with
-  | true, some (d, ix, l) => return fragAccept before d ix l
-  | _, _ => throw (.other "invalid OTR fragment")
+  | true, some (d, ix, l) => do
+    if ix = 0 ∨ l = 0 ∨ ix > l then unbind     -- fragmentIsInvalid: discarded
+    return fragAccept before d ix l
+  | _, _ => do
+    unbind
+    throw (.other "invalid OTR fragment")
 
 /-- fragEncode = fragment(encode(msg), fragmentSize) -/
 def fragEncode (msg : Bytes) : M (List Bytes) := do
@@ -735,9 +744,12 @@ def recvDHKey (K : Crypto) (s : AuthState) (msg : Bytes) : M (AuthState × Optio
 def recvRevealSig (K : Crypto) (s : AuthState) (msg : Bytes) : M (AuthState × Option Bytes × Option Err) := do
   match s with
   | .awaitingRevealSig => akeTry s do
+    let previousKey := (← getc).theirKey
     processRevealSig K msg
-    let m ← sigMessage K
-    let m ← wrapMessageHeader msgTypeSig m
+    -- repaired code: if the answer cannot be built the exchange has not completed, and the peer key
+    -- of the conversation stays what it was
+    let m ← tryCatch (do let m ← sigMessage K; wrapMessageHeader msgTypeSig m)
+      (fun e => do modc (fun c => { c with theirKey := previousKey }); throw e)
     akeSetTheirCurrent
     akeSetOurCurrent
     modAke fun a => { a with sentRevealSig := false }
@@ -787,6 +799,25 @@ def maybeRetransmit (K : Crypto) : M (List Bytes) := do
   -- repaired code: nothing is dequeued unless the conversation is encrypted
   if c.resendMsgs.length > 0 ∧ c.mayRetransmit ≠ .no ∧ c.msgState = .encrypted then retransmit K else return []
 
+/-- retransmitAfterCompletedExchange (repaired code): what waits for retransmission goes out when this
+    message has completed a key exchange — not when it was rejected or ignored -/
+def retransmitAfterCompletedExchange (K : Crypto) (before after : AuthState) (e : Option Err) : M (List Bytes) :=
+  match before, after, e with
+  | .none, _, _ => pure []
+  | _, .none, none => do
+    let toSend ← maybeRetransmit K
+    -- MAC keys carried over from the session this exchange has replaced do not wait until the user says
+    -- something (the queue would grow with every further exchange): if nothing else goes out, an empty
+    -- data message reveals them right away
+    if toSend.isEmpty && !(← getc).keys.oldMACKeys.isEmpty then
+      tryCatch (do
+          let (dm, _) ← genDataMsgWithFlag K [] messageFlagIgnoreUnreadable []
+          let m ← wrapMessageHeader msgTypeData dm.serialize
+          pure [m])
+        (fun _ => pure [])
+    else pure toSend
+  | _, _, _ => pure []
+
 /-- processAKE: messages to send, and the error (state changes are kept) -/
 def processAKE (K : Crypto) (msgType : Nat) (msg : Bytes) : M (List Bytes × Option Err) := do
   if (← getc).ake.isNone then initAKE
@@ -803,16 +834,20 @@ def processAKE (K : Crypto) (msgType : Nat) (msg : Bytes) : M (List Bytes × Opt
     else if msgType = msgTypeRevealSig then do
       let (s', m, e) ← recvRevealSig K s msg
       modAke fun a => { a with state := s' }
-      let extra ← maybeRetransmit K
+      let extra ← retransmitAfterCompletedExchange K s s' e
       pure (m, extra, e)
     else if msgType = msgTypeSig then do
       let (s', m, e) ← recvSig K s msg
       modAke fun a => { a with state := s' }
-      let extra ← maybeRetransmit K
+      let extra ← retransmitAfterCompletedExchange K s s' e
       pure (m, extra, e)
     else pure (none, [], some (.other "unknown message type"))
-  let t ← now
-  modAke fun a => { a with lastStateChange := some t }
+  -- repaired code: a message that was rejected or ignored is no step of a key exchange; it does not
+  -- make the conversation ignore the next query message
+  let s2 := (← getAke).state
+  if err.isNone && (s2.toNat != s.toNat || (match single with | some m => !m.isEmpty | none => false)) then do
+    let t ← now
+    modAke fun a => { a with lastStateChange := some t }
   let msgs := (match single with | some m => [m] | none => []) ++ extra
   return (msgs, err)
 
@@ -889,6 +924,8 @@ def maxSMPQuestionLength : Nat := 0xffff - 1 - 4 - 6 * (4 + 192)
 
 /-- StartAuthenticate -/
 def startAuthenticate (K : Crypto) (question secret : Bytes) : M (List Bytes) := do
+  -- repaired code: the question is written NUL terminated
+  if question.contains 0 then throw (.other "question must not contain a NUL byte")
   -- repaired code: the question travels in a TLV, whose length field has 16 bits
   if question.length > maxSMPQuestionLength then throw (.other "question too long for a TLV")
   let c ← getc
@@ -1178,20 +1215,33 @@ def receiveDataMessage (K : Crypto) (header body : Bytes) : M (Option Bytes × L
 def decodeEnvelope (msg : Bytes) : Option Bytes :=
   if msg.length ≤ 5 then b64decode [] else b64decode ((msg.drop 5).dropLast)
 
-/-- receiveDecoded -/
-def receiveDecoded (K : Crypto) (message : Bytes) : M (Option Bytes × List Bytes × Option Err) := do
+/-- the body of receiveDecoded; the last component: a data message outside a private conversation
+    (never accepted; its flag may suppress the error) -/
+def receiveDecodedCore (K : Crypto) (message : Bytes) : M (Option Bytes × List Bytes × Option Err × Bool) := do
+  let msgStateBefore := (← getc).msgState
   let r ← tryCatch (do checkVersion message; pure none) (fun e => pure (some e))
-  if let some e := r then return (none, [], some e)
+  if let some e := r then return (none, [], some e, false)
   let r ← tryCatch (do let x ← parseMessageHeader message; pure (Except.ok x)) (fun e => pure (Except.error e))
   match r with
-  | .error e => return (none, [], some e)     -- including errReceivedMessageForOtherInstance (handled by receiveUnit)
+  | .error e => return (none, [], some e, false)     -- including errReceivedMessageForOtherInstance (handled by receiveUnit)
   | .ok (header, body) =>
     let msgType := (header.getD 2 0).toNat
-    if msgType = msgTypeData then receiveDataMessage K header body
+    if msgType = msgTypeData then do
+      let (p, ts, err) ← receiveDataMessage K header body
+      return (p, ts, err, msgStateBefore != .encrypted)
     else do
       let (msgs, err) ← processAKE K msgType body
       if err.isSome then msgEventErr evSetupError
-      return (none, msgs, err)
+      return (none, msgs, err, false)
+
+/-- receiveDecoded (repaired code): a message that is rejected neither commits the conversation to its
+    protocol version nor binds it to the instance it names -/
+def receiveDecoded (K : Crypto) (message : Bytes) : M (Option Bytes × List Bytes × Option Err) := do
+  let c0 ← getc
+  let (p, ts, err, rejectedData) ← receiveDecodedCore K message
+  if err.isSome || rejectedData then
+    modc fun c => { c with version := if c0.version.isNone then none else c.version, theirTag := c0.theirTag }
+  return (p, ts, err)
 
 def isWithin (t : Option Nat) (nowT : Nat) : Bool :=
   match t with
@@ -1391,14 +1441,18 @@ def send (K : Crypto) (message : Bytes) : M (List Bytes × Option Err) := do
 def endSession (K : Crypto) : M (List Bytes × Option Err) := do
   let c ← getc
   let prev := c.msgState
+  -- repaired code: whatever the state, nothing of an authentication in progress survives
+  smpWipe
   let (toSend, err) ← if prev == .encrypted then do
-      smpWipe
       let r ← tryCatch (do let (ms, _) ← createSerializedDataMessage K [] messageFlagIgnoreUnreadable [⟨tlvTypeDisconnected, 0, []⟩]; pure (Except.ok ms))
         (fun e => pure (Except.error e))
       match r with
       | .ok ms => pure (ms, none)
       | .error e => pure ([], some e)
     else pure ([], none)
+  -- repaired code: the last text of the conversation that ends here is neither kept nor resent later;
+  -- texts still waiting for a session to start (retransmitExact) are
+  modc fun c => if c.mayRetransmit != .exact then { c with resendMsgs := [], mayRetransmit := .no } else c
   modc fun c => { c with lastMessageStateChange := none, ake := none, msgState := .plainText }
   modc fun c => { c with keys := { c.keys with ourCur := none, ourPrev := none, theirCur := c.keys.theirCur.map (fun _ => 0) } }
   if prev == .encrypted then secEvent secGoneInsecure
